@@ -517,8 +517,12 @@ fn _factor_inner<T: FloatT>(
     next_colspace.copy_from_slice(&Lp[0..Lp.len() - 1]);
 
     if !logical_factor {
-        // First element of the diagonal D.
-        D[0] = Ax[0];
+        // First element of the diagonal D.  Column 0 of an upper
+        // triangular matrix holds at most the diagonal entry, which
+        // may be structurally absent (D[0] is then zero, as for k > 0)
+        if Ap[1] > Ap[0] {
+            D[0] = Ax[Ap[0]];
+        }
         if regularize_enable {
             let sign = T::from_i8(Dsigns[0]).unwrap();
             if D[0] * sign < regularize_eps {
